@@ -27,7 +27,9 @@ def run(ctx):
     muts = []
     for p in rng.sample(canon, 300 if quick else 3000):
         for _ in range(4 if quick else 10):
-            muts.append(mutate_pattern(rng, p))
+            m = mutate_pattern(rng, p)
+            if wide_weight(m) <= 80:        # a mutation can turn a small range into one over tens of thousands of code points
+                muts.append(m)
     pats = corpus + exh + canon + muts
     kinds = ["corpus"] * len(corpus) + ["exhaustive"] * len(exh) + ["canonical"] * len(canon) + ["mutation"] * len(muts)
     lines = pattern_lines(pats)
